@@ -67,6 +67,8 @@ def generate(ck):
         {"cls": "single", "table": {"kind": "synthetic", "family": "const-diffusivity", "prm": [0.3, 0.6, 0.2], "n": 200, "p_lo": 50.0, "p_hi": 9000.0, "grid": "uniform", "seed": 0}, "nx": 25, "p_i": 8000.0, "p_f": 2000.0, "r": 8, "t_end": 6.0, "levels": None, "ladder": True},
         {"cls": "single", "table": {"kind": "synthetic", "family": "zlin", "prm": [0.3, 0.6, 0.2], "n": 400, "p_lo": 50.0, "p_hi": 9000.0, "grid": "uniform", "seed": 0}, "nx": 25, "p_i": 8000.0, "p_f": 7900.0, "r": 16, "t_end": 4.0, "levels": None, "ladder": True},
     ]
+    # the run on which known finding K6 was first seen (sweep #5, seed 32): short first step, diffusivity high at low pressure
+    descs.append({"cls": "single", "table": {"kind": "synthetic", "family": "falling", "prm": [0.9801815554428919, 0.44510113845084076, 0.6085067256192634], "n": 400, "p_lo": 50.0, "p_hi": 12000.0, "grid": "uniform", "seed": 582}, "nx": 40, "p_i": 11141.5296312227, "p_f": 557.076481561135, "r": 8, "t_end": 4.4182807181068, "levels": None, "ladder": False, "reused": False})
     descs.append(dict(descs[0], decoy=True, ratio=0.5))
     descs.append(dict(descs[2], decoy=True, p_f=3000.0))
     for i in range(n):
@@ -149,6 +151,20 @@ def gap_unexplained(out, fluid, tab, p_i, rf, rfd):
     rate = ((kappa - 1) * lap)[:, 1:].sum(axis=1) * nx  # int (kappa - 1) m_xx dx, nodes beyond the pinned one
     G = np.concatenate([[0.0], np.cumsum(rate[1:] * np.diff(t))])  # implicit: the new level's field drives the step
     return (rf - rfd) - G
+
+
+def _k6_first_step(out, fluid, decrease):
+    """Mechanism K6: the dip of the in-place recovery at step 0 is no larger than the mass node 0
+    gains between the stored initial row (node 0 pinned to the frac-face value) and the first
+    solved row, and no other node gained mass. Densities from the sorted table columns."""
+    pp = out.get("pp")
+    if pp is None or pp.shape[0] < 2:
+        return False
+    ms, de = tables.sorted_columns(fluid.pvt_props, "m-scaled", "density")
+    r0, r1 = np.interp(pp[0], ms, de), np.interp(pp[1], ms, de)
+    gain0 = float(r1[0] - r0[0])
+    others_lost = bool(np.all(r1[1:] <= r0[1:] * (1 + 1e-12)))
+    return gain0 > 0 and others_lost and decrease <= gain0 / float(np.sum(r0)) * (1 + 1e-6)
 
 
 def _decoy(ck, desc, res, run_other):
@@ -271,10 +287,20 @@ def run_case(ck, desc):
         for name, arr in (("flux", rf), ("in-place", rfd)):
             dd = np.diff(arr)
             slack = 1e-10 * ceiling + (1.25 * delta * step_prod if name == "in-place" else 0.0)
-            worst = float(np.max(-dd - slack))
+            excess = -dd - slack
+            if name == "in-place" and excess[0] > 0 and _k6_first_step(out, fluid, float(-dd[0])):
+                # the stored INITIAL row carries node 0 at the frac-face value, the first solved
+                # row carries it at its (higher) solved value: the first step of the in-place
+                # recovery goes down by exactly that one node's gain minus what the others lost
+                ck.violation("non-decreasing", {"mode": name, "step": 0, "decrease": float(-dd[0]), "ceiling": ceiling, "nx": nx}, desc, known_key="K6-first-step-in-place-dip")
+                excess = excess[1:]
+                dd_, off = dd[1:], 1
+            else:
+                dd_, off = dd, 0
+            worst = float(np.max(excess)) if len(excess) else 0.0
             ck.note_max(f"largest_decrease_beyond_slack/ceiling.{name}", worst / ceiling)
             if worst > 0:
-                k = int(np.argmax(-dd - slack))
+                k = int(np.argmax(excess)) + off
                 ck.violation("non-decreasing", {"mode": name, "step": k, "decrease": float(-dd[k]), "allowed": float(np.atleast_1d(slack)[k] if np.ndim(slack) else slack), "delta": delta, "ceiling": ceiling}, desc)
             ck.count("monotone_steps_checked", len(dd))
     # 3. ceiling of the in-place recovery
